@@ -8,6 +8,8 @@
   only as an explicit hypothesis `BPSWSound`), and termination of Pollard's rho within its fuel.
 -/
 import AuProofs.Lemmas.Factoring
+import AuProofs.Lemmas.Pratt
+import AuProofs.Lemmas.NatMag
 import Generated.FirstPrimes
 namespace Au
 open U64
@@ -123,6 +125,15 @@ theorem C12_isPerfectSquare_counterexample : ¬ C12_isPerfectSquare_full := by
     omega
   omega
 
+/-- What survives (`_partial`): whenever `is_perfect_square` answers `true` on an execution in which no
+`curr * curr` wrapped, `n` is a perfect square. -/
+theorem C12_isPerfectSquare_partial (n : Nat) (hv : (isPerfectSquare n).val = true)
+    (hw : (isPerfectSquare n).wrapped = false) : ∃ r, r * r = n :=
+  isPerfectSquare_sound n hv hw
+
+example : (isPerfectSquare 18446744030759878681).val = true ∧ (isPerfectSquare 18446744030759878681).wrapped = true := by decide +kernel
+example : isPerfectSquare 1000000 = W.ok true := by decide
+
 /-! ### find_prime_factor (factoring.hh) and the FirstPrimes table -/
 
 /-- The regenerated table is exactly the first 100 primes: 100 entries, strictly increasing, all
@@ -172,6 +183,53 @@ theorem C12_findPrimeFactor_prime_of_BPSW (fu : Fuel) (hB : BPSWSound fu) (n : N
   rcases h3 with h | h
   · exact h
   · exact hB _ (Nat.lt_of_le_of_lt (Nat.le_of_dvd (by omega) h1) hn64) h
+
+/-! ### mag<a>() * mag<b>() -/
+
+/-- `MagProductT` on integer magnitudes multiplies the denoted numbers: the product of `mag<a>()` and
+`mag<b>()` denotes `a * b` whenever the factors denote `a` and `b`.  (That `mag<N>()` is the *canonical*
+factorisation — sorted, prime bases — follows from `C12_findPrimeFactor_spec` only under `BPSWSound`; the
+identity of the types `mag<a>()*mag<b>()` and `mag<a*b>()` is checked by the compile probes.) -/
+theorem C12_magMul_value (a b : NatMag) : NatMag.value (magMul a b) = NatMag.value a * NatMag.value b :=
+  magMul_value a b
+
+example : magMul [(2, 2), (3, 1)] [(2, 1), (3, 2)] = [(2, 3), (3, 3)] := by decide
+example : (magOfNat {} Generated.firstPrimes 360).val = .mag [(2, 3), (3, 2), (5, 1)] := by decide +kernel
+
+/-! ### is_prime: the full statement is FALSE on the code (finding) -/
+
+/-- "For every 64-bit n the primality test answers 'prime' exactly when n is prime." -/
+def C12_isPrime_full (fu : Fuel) : Prop :=
+  ∀ n : Nat, n < 2 ^ 64 → ((isPrime fu n).val = true ↔ Nat.Prime n)
+
+/-- `is_perfect_square(10785637507345693793)` returns `true`: its 10th Newton iterate
+`c = 5266424564134321` satisfies `c * c ≡ n (mod 2^64)`, and `curr * curr` is computed in `uint64_t`.
+So `strong_lucas` answers COMPOSITE — but the number is prime (Lucas/Pratt certificate checked in
+Lean with the verified `powMod`). -/
+theorem C12_isPerfectSquare_prime_counterexample :
+    (isPerfectSquare 10785637507345693793).val = true ∧ (isPerfectSquare 10785637507345693793).wrapped = true ∧
+      Nat.Prime 10785637507345693793 :=
+  ⟨by decide +kernel, by decide +kernel, prime_10785637507345693793⟩
+
+theorem C12_isPrime_counterexample : ¬ C12_isPrime_full {} := by
+  intro h
+  have h1 := (h 10785637507345693793 (by decide)).2 prime_10785637507345693793
+  revert h1
+  decide +kernel
+
+/-- What survives (`_partial`): the direction "accepted ⇒ prime" is the Baillie–PSW hypothesis
+`BPSWSound` (not proved here); the Miller–Rabin half is exact (`C12_millerRabin_iff_strongProbablePrime`);
+and `is_prime` never accepts `n < 2` nor an even `n > 2`. -/
+theorem C12_isPrime_partial (fu : Fuel) (n : Nat) (h : (isPrime fu n).val = true) : 2 ≤ n ∧ (n = 2 ∨ n % 2 = 1) := by
+  refine ⟨isPrime_val_ge2 fu n h, ?_⟩
+  by_contra hc
+  have h2 := isPrime_val_ge2 fu n h
+  have h4 : ¬ n < 4 := by omega
+  unfold isPrime bailliePSW at h
+  rw [if_neg (by omega), if_neg h4, if_pos (by omega)] at h
+  simp [pure_eq_ok] at h
+
+example : (isPrime {} 18446744073709551557).val = true := by decide +kernel
 
 /-! ### Corners recorded as observations -/
 
